@@ -248,6 +248,8 @@ where
 {
     #[inline]
     fn next(&mut self) -> Result<Option<u8>> {
+        #[cfg(lexpr_verif)]
+        crate::verif::tick();
         match self.ch.take() {
             Some(ch) => Ok(Some(ch)),
             None => match self.iter.next() {
@@ -260,6 +262,8 @@ where
 
     #[inline]
     fn peek(&mut self) -> Result<Option<u8>> {
+        #[cfg(lexpr_verif)]
+        crate::verif::tick();
         match self.ch {
             Some(ch) => Ok(Some(ch)),
             None => match self.iter.next() {
@@ -382,6 +386,8 @@ impl<'a> SliceRead<'a> {
         let start = self.index;
 
         loop {
+            #[cfg(lexpr_verif)]
+            crate::verif::tick();
             match self.peek_byte() {
                 None | Some(b' ') | Some(b'\n') | Some(b'\t') | Some(b'\r') | Some(b')')
                 | Some(b']') | Some(b'(') | Some(b'[') | Some(b';') => {
@@ -431,6 +437,8 @@ impl<'a> SliceRead<'a> {
         let mut seen_non_ascii = false;
 
         loop {
+            #[cfg(lexpr_verif)]
+            crate::verif::tick();
             while self.index < self.slice.len() {
                 let ch = self.slice[self.index];
                 if ch > 127 {
@@ -499,6 +507,8 @@ impl<'a> SliceRead<'a> {
         let mut start = self.index;
 
         loop {
+            #[cfg(lexpr_verif)]
+            crate::verif::tick();
             while self.index < self.slice.len() && !needs_escape(self.slice[self.index]) {
                 self.index += 1;
             }
@@ -536,6 +546,8 @@ impl<'a> private::Sealed for SliceRead<'a> {}
 impl<'a> Read<'a> for SliceRead<'a> {
     #[inline]
     fn next(&mut self) -> Result<Option<u8>> {
+        #[cfg(lexpr_verif)]
+        crate::verif::tick();
         // `Ok(self.slice.get(self.index).map(|ch| { self.index += 1; *ch }))`
         // is about 10% slower.
         Ok(if self.index < self.slice.len() {
@@ -549,6 +561,8 @@ impl<'a> Read<'a> for SliceRead<'a> {
 
     #[inline]
     fn peek(&mut self) -> Result<Option<u8>> {
+        #[cfg(lexpr_verif)]
+        crate::verif::tick();
         // `Ok(self.slice.get(self.index).map(|ch| *ch))` is about 10% slower
         // for some reason.
         Ok(if self.index < self.slice.len() {
@@ -642,6 +656,8 @@ impl<'a> Read<'a> for StrRead<'a> {
         scratch: &'s mut Vec<u8>,
     ) -> Result<Reference<'a, 's, str>> {
         self.delegate.parse_r6rs_str_bytes(scratch, |_, bytes| {
+            #[cfg(lexpr_verif)]
+            crate::verif::check_utf8("StrRead::parse_r6rs_str", bytes);
             // The input is assumed to be valid UTF-8 and the \x-escapes are
             // checked along the way, so don't need to check here.
             Ok(unsafe { str::from_utf8_unchecked(bytes) })
@@ -660,6 +676,8 @@ impl<'a> Read<'a> for StrRead<'a> {
 
     fn parse_symbol<'s>(&'s mut self, scratch: &'s mut Vec<u8>) -> Result<Reference<'a, 's, str>> {
         self.delegate.parse_symbol_bytes(scratch, |_, bytes| {
+            #[cfg(lexpr_verif)]
+            crate::verif::check_utf8("StrRead::parse_symbol", bytes);
             // The input is assumed to be valid UTF-8 and the \u-escapes are
             // checked along the way, so don't need to check here.
             Ok(unsafe { str::from_utf8_unchecked(bytes) })
